@@ -38,6 +38,15 @@ structure RandomSite where
   membershipOnly : Bool   -- the value only enters a set-membership test / insertion
 deriving Repr, DecidableEq
 
+/-- a place in the source where state can outlive a call: a module-level or class-level mutable object, a mutable
+    default argument, a memoising decorator, a `global` statement -/
+structure PersistentSite where
+  file : String
+  line : Nat
+  kind : String      -- "module" | "class" | "default" | "cache" | "global"
+  name : String      -- the variable / `Class.attr` / `function(default)` / function name
+deriving Repr, DecidableEq
+
 /-- hand-written catalogue entry: which operands of the op are differentiable (must receive a
     gradient); everything else (integer labels, running statistics) must never be written -/
 structure CatEntry where
@@ -90,5 +99,17 @@ def sameNames (t : List OpRec) : Bool :=
 
 /-- randomness may only come from the generators `manual_seed` seeds -/
 def siteOk (s : RandomSite) : Bool := s.seeded || (s.callee == "id" && s.membershipOnly)
+
+/-- the process-wide state the library is documented to have: the two engine flags (set by the context managers, which
+    restore them — C07), the lazily resolved circular imports, and one read-only default list in a plotting helper -/
+def allowedPersistent : List (String × String × String) := [
+  ("synapgrad/tensor.py", "global", "gradient__"),
+  ("synapgrad/tensor.py", "global", "retain_grads__"),
+  ("synapgrad/tensor.py", "global", "F"),
+  ("synapgrad/tensor.py", "global", "autograd"),
+  ("synapgrad/tensor.py", "global", "utils"),
+  ("synapgrad/nn/utils/train.py", "default", "plot(['loss'])")]
+
+def persistentOk (s : PersistentSite) : Bool := allowedPersistent.contains (s.file, s.kind, s.name)
 
 end Synap.OpTable
